@@ -152,14 +152,15 @@ fn programs<'b>(ctx: &types::Context<'b>, depth: usize) -> Vec<(String, N<'b>)> 
         return out;
     }
     let sub = programs(ctx, depth - 1);
-    let n_un = if depth == 1 { sub.len() } else { 14 };
+    let deep = std::env::var("VERIF_NATIVE_DEEP").is_ok(); // thorough tier: larger samples
+    let n_un = if depth == 1 { sub.len() } else if deep { 30 } else { 14 };
     for (n, e) in sub.iter().take(n_un) {
         out.push((format!("injl ({})", n), N::injl(e)));
         out.push((format!("injr ({})", n), N::injr(e)));
         out.push((format!("take ({})", n), N::take(e)));
         out.push((format!("drop ({})", n), N::drop_(e)));
     }
-    let n_bin = if depth == 1 { sub.len() } else { 12 };
+    let n_bin = if depth == 1 { sub.len() } else if deep { 20 } else { 12 };
     for (n, e) in sub.iter().take(n_bin) {
         for (m, f) in sub.iter().take(n_bin) {
             if let Ok(x) = N::pair(e, f) {
@@ -199,8 +200,9 @@ fn c05_machine_semantics_replay() {
             shapes.push((3, i, 0)); // drop / take the program: moves it to an unaligned offset of a larger input
         }
     }
-    for i in (0..n_leaf).step_by(5) {
-        for j in (0..n_leaf).step_by(7) {
+    let deep = std::env::var("VERIF_NATIVE_DEEP").is_ok();
+    for i in (0..n_leaf).step_by(if deep { 2 } else { 5 }) {
+        for j in (0..n_leaf).step_by(if deep { 3 } else { 7 }) {
             shapes.push((1, i, j)); // comp
         }
     }
